@@ -25,7 +25,7 @@
         default_backend <backend>         {{ if DefaultHost }}{{ if not Backend.IsEmpty }}
      listen _front__tls          {{ if $hosts.HasSSLPassthrough }}
         use_backend %[var(req.sslpassback)] <- SSLPassthroughMap values
-        use_backend <id>                     default host with ssl-passthrough, its "/" paths
+        use_backend <id>                     default host with ssl-passthrough, its "/" paths with a backend
      frontend _front_http, frontend <$frontend.Name>     {{ if $fmaps }}
         use_backend _acme_challenge           {{ if $global.Acme.Enabled }} (exclusive or shared)
         use_backend %[var(req.backend)] / %[var(req.hostbackend)] <- HTTPHostMap / HTTPSHostMap values
@@ -215,7 +215,8 @@ Definition tls_front_refs (st : tstate) : list ref :=
     sslpass_map_refs st ++
     match ts_defhost st with
     | Some dh => if th_pass dh then
-                   flat_map (fun p => if is_root p then [("_front__tls", SBack (tp_back p))] else []) (th_paths dh)
+                   flat_map (fun p => if is_root p && nonempty (tp_back p)
+                                      then [("_front__tls", SBack (tp_back p))] else []) (th_paths dh)
                  else []
     | None => []
     end
@@ -319,9 +320,6 @@ Definition inv_hostrefs (st : tstate) : bool := forallb (host_ok st) (all_hosts 
 Definition inv_rest (st : tstate) : bool :=
   (* the counter behind HasSSLPassthrough agrees with the hosts (hosts_counter theorem) *)
   Bool.eqb (ts_haspass st) (existsb th_pass (all_hosts st)) &&
-  (* a default host with ssl-passthrough has a backend on its root paths *)
-  forallb (fun dh => negb (th_pass dh) || forallb (fun p => negb (is_root p) || nonempty (tp_back p)) (th_paths dh))
-          (opt_list (ts_defhost st)) &&
   forallb (back_ok st) (ts_backs st) &&
   forallb (fun b => known_back st (ab_backend b)) (ts_binds st) &&
   forallb (known_back st) (opt_list (ts_default st)) &&
